@@ -107,4 +107,4 @@ def project(impl, case):
     d = parse_out(impl)
     if d.get('close') != '1': return 'OK close=0'
     lens = [e.split(':')[2] for e in d.get('cl', '').split(';') if e.count(':') == 2]
-    return 'OK close=1 lens=' + ','.join(lens) + ' hdr=1'
+    return 'OK close=1 lens=' + ','.join(lens) + ' hdr=1 file=1'
